@@ -443,14 +443,15 @@ func c09Bytes(r *run.Run) {
 }
 
 func c09Table(r *run.Run) {
-	keys := []cmap.Key{{0, 3, 0}, {0, 4, 0}, {1, 0, 0}, {1, 0, 5}, {3, 1, 0}, {3, 10, 0}, {3, 0, 0}}
+	// the last two: full-Unicode (32-bit header) subtables under the Macintosh platform that differ in the language only
+	keys := []cmap.Key{{0, 3, 0}, {0, 4, 0}, {1, 0, 0}, {1, 0, 5}, {3, 1, 0}, {3, 10, 0}, {3, 0, 0}, {1, 0, 7}, {1, 0, 9}}
 	f4 := cmap.Format4{65: 1, 66: 2}
 	f4b := cmap.Format4{65: 3}
 	f12 := cmap.Format12{65: 1, 0x1F600: 2}
 	var f0 cmap.Format0
 	f0.Data[65] = 4
 	r.Explore(explore.Config{Name: "C09.table"},
-		"cmap.Table over all subsets of 7 (platform, encoding, language) keys with shared / distinct subtables: Decode(Encode(t)) keeps keys, bytes and sharing; GetBest prefers (3,10) > (0,4) > (3,1) > (0,3) > (1,0)",
+		"cmap.Table over all subsets of 9 (platform, encoding, language) keys (incl. 16- and 32-bit subtable headers under Macintosh keys with non-zero languages) with shared / distinct subtables: Decode(Encode(t)) keeps keys, bytes and sharing; GetBest prefers (3,10) > (0,4) > (3,1) > (0,3) > (1,0)",
 		func(c *explore.Ctx) {
 			t := cmap.Table{}
 			var desc []string
@@ -461,6 +462,8 @@ func c09Table(r *run.Run) {
 				}
 				var data []byte
 				switch {
+				case k.PlatformID == 1 && k.Language >= 7:
+					data = cmap.Format12{65: glyph.ID(k.Language), 0x1F600: 2}.Encode(k.Language)
 				case k.PlatformID == 1:
 					data = f0.Encode(k.Language)
 				case k.EncodingID == 10 || k.EncodingID == 4:
